@@ -31,6 +31,12 @@ FOCUS = {
   * CONVENTIONS AND UNITS: fractional vs Cartesian, row vs column vectors (matrix vs its transpose - invisible for symmetric or orthogonal cells), degrees vs radians, fs vs ps vs s, Angstrom vs m, frame index vs time, inclusive vs exclusive interval ends, 0- vs 1-based indices, population vs sample statistics.
   * INPUT NORMALISATION: inputs that are valid but not in canonical form - coordinates outside [0,1), unsorted / duplicated / oxidation-state-decorated species, labels that are None or contain separators, site structures that carry extra site properties, numpy scalar types (np.int64, np.float32) or bools where Python numbers are usual, tuples / arrays where lists are usual, Lattice vs 3x3 array, negative or zero-valued optional arguments that are falsy.
   * ERROR AND EDGE PATHS: a documented exception swallowed and replaced by a default, an `except` clause broadened, a warning path that continues with a wrong value, a result for an empty / single-element selection.""",
+ 'D': """The verification effort you are helping to evaluate is based on property-based testing: random and small exhaustive generators of inputs and call sequences, checked against brute-force oracles. Such an approach is weak exactly where a fault is confined to a NARROW REGION of the input space that a generator is unlikely to hit unless it was built to aim there. Aim your changes at such regions (pick whichever fit this property best):
+  * a specific magic size or count (exactly N frames / atoms / sites / jumps / voxels, a count that is a prime, a power of two plus one, a multiple of an internal block length you introduce, more than 2**15 or 2**16 of something),
+  * a specific numeric coincidence (two values exactly equal, a value exactly on a threshold, exactly 0.5 or 1.0, a denormal or huge magnitude, a negative zero, an integer-valued float),
+  * a deep or rare state (the k-th call, the second object of a kind in the process, an object derived three steps away from the original, an argument combination nobody uses together),
+  * a rare structural configuration (all atoms on one site, a site nobody visits between two visited ones, an atom that never moves, identical labels, a cell with two equal edges, an empty selection in the middle of a pipeline).
+  The change must still look like something a maintainer could plausibly write (an optimisation with a block size, a fast path, a special case, a cache), not an artificial trap such as `if n == 1234: return wrong`.""",
 }[focus]
 prev_txt = ('\n\nEarlier helpers already produced the following changes for this property. Do NOT repeat these ideas or close variants of them (same line of code, same mechanism); find different ones:\n' + '\n'.join(prev)) if prev else ''
 print(f"""You are helping to evaluate a verification effort for the open-source Python library GEMDAT (analysis of molecular-dynamics trajectories for ion diffusion, built on pymatgen). You have your own scratch git worktree of the repository at {wt} (source under {wt}/src/gemdat, tests under {wt}/tests). Work ONLY inside {wt} (and, for temporary files, {wt}/.scratch). Do not read or touch /repo, /verif or any other directory; do not commit anything and NEVER use `git stash` (the stash is shared with other people's worktrees of the same repository): switch between patched and unpatched states only with `git diff > file`, `git checkout -- .` and `git apply file`.
